@@ -1,11 +1,25 @@
 import Tahoe.Storage.ImmSpaceLemmas
 import Tahoe.Storage.ImmConnLemmas
+import Tahoe.Storage.ImmDirLemmas
 /-!
 C28 — storage space reservations are honoured (property theorems only).
 Model: `allocate` / `allocLoop` / `allocatedSize` / `availableSpace` in `Tahoe/Storage/Immutable.lean`
 (`allocate_buckets`, `allocated_size`, `get_available_space`, `bucket_writer_closed`).
 `free` is what the disk reports at the call; `availableSpace s free = max(free − reserved_space, 0)`,
 and `0` on a read-only server.
+-/
+/-!
+## Coverage of the statement (properties.jsonl C28)
+
+| clause of the statement | theorem(s) for the model |
+|---|---|
+| never accepts new allocations whose reserved sizes, together with uploads in progress and reserved_space, exceed the available space | `never_overcommits` (every state, request, disk reading; Σ in progress after ≤ max(0, free − reserved_space); each accepted share reserves its full `size` — seeded C28-a/C28-b) |
+| a read-only server accepts none | `readonly_accepts_none` (repaired code, any size); unrepaired code: `readonly_accepts_none_unfixed_counterexample`, `readonly_unfixed_partial` |
+| space reserved for an upload is released when the upload completes | `released_on_close_or_abort` (close) |
+| … or is aborted (abort, disconnect, timeout) | `released_on_close_or_abort` (abort, timeout sweep), `abort_always_releases` (with the directory cleanup of abort, siblings present or not — seeded C28-c), `lost_connection_releases_space` (Foolscap disconnect, reachable states — seeded C22-b) |
+| quantifier: histories × configurations (capacity, reserved_space, read-only) | theorems are per step for every state/configuration; reachable-state ones by induction over front-end histories |
+| `get_available_space()` = max(free − reserved, 0) computed by fileutil / statvfs | model definition `availableSpace`; correspondence only (real `get_disk_stats` runs on a patched `os.statvfs`) |
+| platform without statvfs (`None` = unlimited) | not covered (not modelled) |
 -/
 namespace Tahoe.C28
 open Tahoe.Base.File Tahoe.Storage.Imm
@@ -94,6 +108,33 @@ example :
       .direct (.close 0)]
     allocatedSize s = 60 ∧ allocatedSize (disconnectOp s 1) = 20 ∧ allocatedSize (disconnectOp s 2) = 40 ∧
     allocatedSize (disconnectOp (disconnectOp s 1) 2) = 0 := by decide
+
+/-- **abort_always_releases**: in every state reachable by front-end operations on the server with
+    its directory tree (`dfrun`), aborting a live upload — explicitly, by disconnect or by timeout —
+    never raises in its directory cleanup (`os.rmdir` is only attempted on an existing, empty
+    directory), so `bucket_writer_closed` is always reached and the reservation total drops by
+    exactly that upload's size, whether or not sibling uploads share its incoming directories. -/
+theorem abort_always_releases (pre : Nat → Nat) (ro : Bool) (rs : Nat) (ops : List FOp)
+    (ok : ∀ o ∈ ops, FOpOk o) (wid : Nat) (k : Key) (w : Writer) (f : File) :
+    let d := dfrun pre (DServer.empty ro rs) ops
+    findWid wid d.srv.incoming = some (k, (w, f)) →
+    (dAbort d wid).2 = false ∧
+    allocatedSize (dAbort d wid).1.srv + w.maxSize = allocatedSize d.srv := by
+  intro d hf
+  have hd : DInv d := dfrun_dinv pre _ (dinv_empty ro rs) ops ok
+  have inv := dAbort_inv d hd.dirs wid
+  refine ⟨inv.1, ?_⟩
+  rw [inv.2.1]
+  exact (abortOp_effect d.srv hd.wf wid k w f hf).2.2.2.2
+
+/-- two uploads of one storage index share the incoming bucket directory (the C28-c situation):
+    aborting the first cannot rmdir it, and still releases; aborting the second removes it -/
+example :
+    let d := dfrun (fun si => si % 2) (DServer.empty false 0) [.allocConn 1 0 [0, 1] 40 exRec 200 []]
+    allocatedSize d.srv = 80 ∧ (dAbort d 0).2 = false ∧ allocatedSize (dAbort d 0).1.srv = 40 ∧
+    Dir.incDir 0 ∈ (dAbort d 0).1.dirs ∧
+    allocatedSize (dAbort (dAbort d 0).1 1).1.srv = 0 ∧ Dir.incDir 0 ∉ (dAbort (dAbort d 0).1 1).1.dirs := by
+  decide
 
 /-- **readonly_accepts_none** (with the repair fixes/C28-readonly.diff): a read-only server creates
     no BucketWriter and reserves nothing, whatever the requested size (0 included), the disk and the
